@@ -20,6 +20,7 @@ from collections.abc import Sequence
 from numbers import Real
 from typing import TYPE_CHECKING
 
+from cirq import protocols
 from cirq.ops import CZ, CZPowGate, Gate, Gateset, S, X
 from cirq.transformers.gauge_compiling.gauge_compiling import (
     ConstantGauge,
@@ -48,11 +49,12 @@ class SqrtCZGauge(Gauge):
         if prng.choice([True, False]):
             return ConstantGauge(two_qubit_gate=gate)
         swap_qubits = prng.choice([True, False])
+        is_sqrt_cz = protocols.equal_up_to_global_phase(gate, _SQRT_CZ)
         if swap_qubits:
             return ConstantGauge(
                 pre_q1=X,
                 post_q1=X,
-                post_q0=S if gate == _SQRT_CZ else _ADJ_S,
+                post_q0=S if is_sqrt_cz else _ADJ_S,
                 two_qubit_gate=gate**-1,
                 swap_qubits=True,
             )
@@ -60,7 +62,7 @@ class SqrtCZGauge(Gauge):
             return ConstantGauge(
                 pre_q0=X,
                 post_q0=X,
-                post_q1=S if gate == _SQRT_CZ else _ADJ_S,
+                post_q1=S if is_sqrt_cz else _ADJ_S,
                 two_qubit_gate=gate**-1,
             )
 
